@@ -582,6 +582,7 @@ func genC17(c *lp.Ctx) {
 func genC20(c *lp.Ctx) {
 	n := c.Pick(200, 700)
 	size := c.Pick(150, 800)
+	var prevBuf []byte
 	for it := 0; it < n; it++ {
 		ks := gen.Any(c.Rng, size)
 		cs := NewCase(c.Rng, ks, "", "")
@@ -602,6 +603,24 @@ func genC20(c *lp.Ctx) {
 		if m2 := c.Do("trie.marshal"); m2 != m1 {
 			cs.viol(c, "bytes returned by Marshal are independent of the trie", "trie.marshal", m1, m2)
 		}
+		// two results alive at once; one result held across a load of ANOTHER stream into the instance
+		if m2 := c.Do("trie.marshal-twice"); m2 != m1 {
+			cs.viol(c, "two results of Marshal do not share memory and do not change each other", "trie.marshal-twice", m1, m2)
+		}
+		if prevBuf != nil && it%2 == 0 {
+			if h := c.Do("trie.marshal-hold"); h == m1 {
+				if a := c.Do("trie.unmarshal " + lp.X(prevBuf)); a == "ok" {
+					c.Do("trie.marshal")
+					if g := c.Do("trie.marshal-held-check"); g != "held-unchanged" {
+						cs.viol(c, "bytes returned by Marshal stay unchanged when the instance loads another stream and marshals again",
+							"trie.marshal-held-check", "held-unchanged", g)
+					}
+					c.Hit("history:marshal-hold,U(other),marshal,check-held")
+				}
+			}
+			// (the instance now holds the other stream; the original one is loaded again just below)
+		}
+		prevBuf = buf
 		// input buffer of Unmarshal overwritten afterwards
 		if buf == nil {
 			continue
